@@ -206,4 +206,83 @@ def DataFrame_unique_signature : List String := ["self", "*colnames"]
 /-- the calls of dataiter/data_frame.py: DataFrame.unique in the order Python makes them along the source text -/
 def DataFrame_unique_call_order : List String := ["enumerate", "column.is_datetime", "column.is_float", "column.is_timedelta", "column.is_na", "np.where", "zip", "list", "set", "range", "seen.add", "keep.append", "self.items", "column[keep].copy"]
 
+/-- dataiter/data_frame.py: DataFrame._parse_cols_from_boolean (sha256 of the function source: 4d4fb51eba611048) -/
+def DataFrame_parse_cols_from_boolean (truth : Term → Bool) : Out :=
+  let cols' : Term := (Term.app "Vector.fast" [(Term.sym "cols"), (Term.sym "bool")]);
+  if truth (Term.app "NotEq" [(Term.app "len" [cols']), (Term.app ".ncol" [(Term.sym "self")])]) then
+    Out.raise [] "ValueError"
+  else
+    Out.ret [] (Term.app "Vector.fast" [(Term.app "getitem" [(Term.app "np.nonzero" [cols']), (Term.int (0 : Int))]), (Term.sym "int")])
+
+/-- the decorators of dataiter/data_frame.py: DataFrame._parse_cols_from_boolean, outermost first -/
+def DataFrame_parse_cols_from_boolean_decorators : List String := []
+
+/-- the signature of dataiter/data_frame.py: DataFrame._parse_cols_from_boolean: parameters in order, with the source text of their defaults -/
+def DataFrame_parse_cols_from_boolean_signature : List String := ["self", "cols"]
+
+/-- the calls of dataiter/data_frame.py: DataFrame._parse_cols_from_boolean in the order Python makes them along the source text -/
+def DataFrame_parse_cols_from_boolean_call_order : List String := ["Vector.fast", "len", "ValueError", "np.nonzero", "Vector.fast"]
+
+/-- dataiter/data_frame.py: DataFrame._parse_cols_from_integer (sha256 of the function source: 855af1c015e1136b) -/
+def DataFrame_parse_cols_from_integer (truth : Term → Bool) : Out :=
+  Out.ret [] (Term.app "Vector.fast" [(Term.sym "cols"), (Term.sym "int")])
+
+/-- the decorators of dataiter/data_frame.py: DataFrame._parse_cols_from_integer, outermost first -/
+def DataFrame_parse_cols_from_integer_decorators : List String := []
+
+/-- the signature of dataiter/data_frame.py: DataFrame._parse_cols_from_integer: parameters in order, with the source text of their defaults -/
+def DataFrame_parse_cols_from_integer_signature : List String := ["self", "cols"]
+
+/-- the calls of dataiter/data_frame.py: DataFrame._parse_cols_from_integer in the order Python makes them along the source text -/
+def DataFrame_parse_cols_from_integer_call_order : List String := ["Vector.fast"]
+
+/-- dataiter/data_frame.py: DataFrame._parse_rows_from_integer (sha256 of the function source: 91490b450af714e0) -/
+def DataFrame_parse_rows_from_integer (truth : Term → Bool) : Out :=
+  Out.ret [] (Term.app "Vector.fast" [(Term.sym "rows"), (Term.sym "int")])
+
+/-- the decorators of dataiter/data_frame.py: DataFrame._parse_rows_from_integer, outermost first -/
+def DataFrame_parse_rows_from_integer_decorators : List String := []
+
+/-- the signature of dataiter/data_frame.py: DataFrame._parse_rows_from_integer: parameters in order, with the source text of their defaults -/
+def DataFrame_parse_rows_from_integer_signature : List String := ["self", "rows"]
+
+/-- the calls of dataiter/data_frame.py: DataFrame._parse_rows_from_integer in the order Python makes them along the source text -/
+def DataFrame_parse_rows_from_integer_call_order : List String := ["Vector.fast"]
+
+/-- dataiter/data_frame.py: DataFrame.sample (sha256 of the function source: e9978ee957e3dbd2) -/
+def DataFrame_sample (truth : Term → Bool) (n_is_None : Bool) : Out :=
+  if n_is_None then
+    let n' : Term := (Term.sym "dataiter.DEFAULT_PEEK_ROWS");
+    let n' : Term := (Term.app "min" [(Term.app ".nrow" [(Term.sym "self")]), n']);
+    let rows' : Term := (Term.app "np.random.choice" [(Term.app ".nrow" [(Term.sym "self")]), n', (Term.app "=replace" [(Term.sym "False")])]);
+    Out.ret [] (Term.app ".slice" [(Term.sym "self"), (Term.app "np.sort" [rows'])])
+  else
+    let n' : Term := (Term.app "min" [(Term.app ".nrow" [(Term.sym "self")]), (Term.sym "n")]);
+    let rows' : Term := (Term.app "np.random.choice" [(Term.app ".nrow" [(Term.sym "self")]), n', (Term.app "=replace" [(Term.sym "False")])]);
+    Out.ret [] (Term.app ".slice" [(Term.sym "self"), (Term.app "np.sort" [rows'])])
+
+/-- the decorators of dataiter/data_frame.py: DataFrame.sample, outermost first -/
+def DataFrame_sample_decorators : List String := []
+
+/-- the signature of dataiter/data_frame.py: DataFrame.sample: parameters in order, with the source text of their defaults -/
+def DataFrame_sample_signature : List String := ["self", "n=None"]
+
+/-- the calls of dataiter/data_frame.py: DataFrame.sample in the order Python makes them along the source text -/
+def DataFrame_sample_call_order : List String := ["min", "np.random.choice", "np.sort", "self.slice"]
+
+/-- dataiter/data_frame.py: DataFrame._view_rows (sha256 of the function source: 65d635088468aa65) -/
+def DataFrame_view_rows (truth : Term → Bool) : Out :=
+  let data' : Term := (Term.app ".__class__" [(Term.sym "self")]);
+  let eff0 : Term := (Term.app "dict.update" [data', (Term.app "DictComp" [(Term.app "pair" [(Term.sym "x"), (Term.app "getitem" [(Term.app "getitem" [(Term.sym "self"), (Term.sym "x")]), (Term.sym "rows")])]), (Term.app "in" [(Term.sym "x"), (Term.sym "self"), (Term.app "if" [])])])]);
+  Out.ret [eff0] data'
+
+/-- the decorators of dataiter/data_frame.py: DataFrame._view_rows, outermost first -/
+def DataFrame_view_rows_decorators : List String := []
+
+/-- the signature of dataiter/data_frame.py: DataFrame._view_rows: parameters in order, with the source text of their defaults -/
+def DataFrame_view_rows_signature : List String := ["self", "rows"]
+
+/-- the calls of dataiter/data_frame.py: DataFrame._view_rows in the order Python makes them along the source text -/
+def DataFrame_view_rows_call_order : List String := ["self.__class__", "dict.update"]
+
 end DI.Gen
